@@ -785,7 +785,11 @@ func genBatch(prop string, g *Gen, m *Model, rng *SplitMix) []Cmd {
 		}); ok && rng.Chance(3, 4) {
 			e = ce // an epic that prune --yes will remove
 		}
-		cmds = []Cmd{{Op: "prune", Yes: true}, {Op: "new_task", Title: sp(g.text("title")), Epic: &e}}
+		nt := Cmd{Op: "new_task", Title: sp(g.text("title")), Epic: &e, Mode: g.oneOf("json", "flags", "bodystdin")}
+		if nt.Mode == "bodystdin" {
+			nt.Body = sp(g.text("body"))
+		}
+		cmds = []Cmd{{Op: "prune", Yes: true}, nt}
 		if t, ok := g.liveOf(m, isTask); ok {
 			cmds = append(cmds, Cmd{Op: "set", ID: t, Epic: &e})
 		}
@@ -926,6 +930,9 @@ func runConcSample(bin, prop string, seed uint64, thorough bool) *RunReport {
 	g.W["list"], g.W["show"], g.W["where"], g.W["prune_dry"], g.W["init"], g.W["file"] = 0, 0, 0, 0, 0, 1
 	g.W["new_task"] = 30
 	sc.Config.Clock = []string{"fine", "coarse", "second", "fine"}[rng.Intn(4)]
+	if (prop == "C13" || prop == "C02") && rng.Chance(1, 4) {
+		sc.Config.Layout = "legacy" // a store that still uses events.jsonl
+	}
 	if prop == "C13" || prop == "C02" {
 		if rng.Chance(1, 2) {
 			sc.Config.ShortWriteDen = 2
